@@ -203,3 +203,109 @@ def around_iteration():
                and c01_effects._touches_tracked(s)]
         out[name] = bad
     return out
+
+
+# ---------------------------------------------------------------------------------------------
+# every construct of the package that can intercept the SystemExit the handler raises
+# ---------------------------------------------------------------------------------------------
+def _catch_kind(t):
+    """type expression of an except clause -> CBare | CBase | CSysExit | COther"""
+    if t is None:
+        return "CBare"
+    names = []
+    for n in ([t] if not isinstance(t, ast.Tuple) else t.elts):
+        d = dotted(n)
+        names.append(d.split(".")[-1] if d else unparse(n))
+    if "BaseException" in names:
+        return "CBase"
+    if "SystemExit" in names:
+        return "CSysExit"
+    return "COther"
+
+
+def _reraises(body):
+    """the handler lets the exception go on: its last top-level statement raises or exits the process"""
+    body = [s for s in body if not is_logging(s)]
+    if not body:
+        return False
+    last = body[-1]
+    if isinstance(last, ast.Raise):
+        return True
+    if isinstance(last, ast.Expr) and isinstance(last.value, ast.Call) and dotted(last.value.func) in ("sys.exit", "os._exit"):
+        return True
+    return False
+
+
+def _jumps_out(stmts):
+    """return / break / continue directly in a finally block (not inside a nested def or loop)"""
+    for s in stmts:
+        if isinstance(s, ast.Return):
+            return True
+        if isinstance(s, (ast.Break, ast.Continue)):
+            return True
+        if isinstance(s, (ast.FunctionDef, ast.AsyncFunctionDef, ast.ClassDef, ast.For, ast.While)):
+            # break/continue inside an inner loop stay inside; a return inside it still leaves
+            if any(isinstance(n, ast.Return) for n in ast.walk(s)) and not isinstance(s, (ast.FunctionDef, ast.AsyncFunctionDef, ast.ClassDef)):
+                return True
+            continue
+        for field in ("body", "orelse", "finalbody", "handlers"):
+            sub = getattr(s, field, None)
+            if sub and _jumps_out([x for x in sub if isinstance(x, ast.stmt)] +
+                                  [y for x in sub if isinstance(x, ast.ExceptHandler) for y in x.body]):
+                return True
+    return False
+
+
+def exit_interceptors():
+    """Table of every try/except, try/finally-with-return and contextlib.suppress of the nessai package:
+    [(file, lineno, enclosing function, catch kind, re-raises?, first/last line of the guarded block)].
+    The whole package is taken as "the signal path" (a superset of what an iteration can call)."""
+    import os
+    from pyast import REPO
+    rows = []
+    root = os.path.join(REPO, "nessai")
+    for dp, _, fs in sorted(os.walk(root)):
+        for f in sorted(fs):
+            if not f.endswith(".py"):
+                continue
+            rel = os.path.relpath(os.path.join(dp, f), REPO)
+            try:
+                mod, _ = parse(rel)
+            except SyntaxError as e:
+                raise Declined(f"{rel}: {e}")
+            parents = {}
+            for node in ast.walk(mod):
+                for ch in ast.iter_child_nodes(node):
+                    parents[ch] = node
+
+            def owner(n):
+                names = []
+                while n in parents:
+                    n = parents[n]
+                    if isinstance(n, (ast.FunctionDef, ast.AsyncFunctionDef, ast.ClassDef)):
+                        names.append(n.name)
+                return ".".join(reversed(names)) or "<module>"
+
+            for node in ast.walk(mod):
+                if isinstance(node, (ast.Try, getattr(ast, "TryStar", ast.Try))):
+                    lo, hi = node.body[0].lineno, node.body[-1].end_lineno
+                    for h in node.handlers:
+                        rows.append((rel, h.lineno, owner(node), _catch_kind(h.type), _reraises(h.body), lo, hi))
+                    if node.finalbody and _jumps_out(node.finalbody):
+                        rows.append((rel, node.finalbody[0].lineno, owner(node), "CFinallyReturn", False, lo, hi))
+                elif isinstance(node, (ast.With, ast.AsyncWith)):
+                    for it in node.items:
+                        c = it.context_expr
+                        if isinstance(c, ast.Call) and (dotted(c.func) or "").split(".")[-1] == "suppress":
+                            kind = _catch_kind(ast.Tuple(elts=list(c.args), ctx=ast.Load())) if c.args else "COther"
+                            rows.append((rel, node.lineno, owner(node), kind, False,
+                                         node.body[0].lineno, node.body[-1].end_lineno))
+    return rows
+
+
+def interceptors_coq(rows):
+    return "[" + "; ".join(f"mkx {r[3]} {'true' if r[4] else 'false'}" for r in rows) + "]"
+
+
+def intercepts(row):
+    return row[3] == "CFinallyReturn" or (row[3] in ("CBare", "CBase", "CSysExit") and not row[4])
